@@ -20,7 +20,7 @@ from rules.common import *
 import runner
 from rules.C18 import cd_conditions
 
-TECHNIQUE = ('static analysis over rustc MIR: exact decision/executor tables by finite-domain interpretation, who-feeds-the-index rule over all IndexCollector::extend sites, pack-identity rule, default-value evaluation of PruneOptions, index-before-pack removal ordering')
+TECHNIQUE = ('static analysis over rustc MIR: exact decision/executor tables by finite-domain interpretation, who-feeds-the-index rule over all IndexCollector::extend sites, pack-identity rule, default-value evaluation of PruneOptions, index-before-pack removal ordering, reuse-only-if-indexed guard evaluated path-sensitively')
 LEVEL = "other"
 EXPLANATION = (
     "The lock-free prune/backup protocol is reduced to structural invariants over commands/prune.rs and the index "
@@ -58,6 +58,16 @@ def run(ctx, rep):
     rep.floor("C10.c", "borrowed obligations", n, 4)
     n = borrow(rep, ctx, C03, lambda o: o.rule == "R-ORDER" and re.search(r"/R-ORDER/(13|13b|14)/", o.key), "C10.e")
     rep.floor("C10.e", "borrowed obligations", n, 4)
+    # a backup stays self-contained although its parent snapshot came from a backup that overlapped a prune: content is taken
+    # over from the parent only if every chunk is in the index the backup reads (packs marked for deletion are not) (= C11.b)
+    from rules import C11
+    rep.rule("C10.i", "parent content is reused only if every chunk is indexed (blobs living only in marked packs are stored again) (= C11.b)")
+    n = borrow(rep, ctx, C11, lambda o: o.rule == "C11.b", "C10.i")
+    rep.floor("C10.i", "borrowed obligations", n, 3)
+    # the checked index (backup with index verification) never indexes packs that an index file lists as marked (= C17.g)
+    rep.rule("C10.j", "the checked index treats packs listed as marked for deletion as known, never as unindexed packs to be read back (= C17.g)")
+    n = borrow(rep, ctx, C17, lambda o: o.rule == "C17.g", "C10.j")
+    rep.floor("C10.j", "borrowed obligations", n, 1)
     # ---- C10.d -------------------------------------------------------------------------------------
     NW = prog.find1(r"^rustic_core::commands::prune::PrunePlan::new$")
     fam = [NW] + prog.closures_of(NW)
